@@ -194,21 +194,30 @@ func (c *Conn) call(ctx context.Context, msg *message.UpstreamCall) (*message.Up
 	c.upstreamCallAckCh[msg.CallID] = ch
 	c.upstreamCallAckMu.Unlock()
 
+	// the ack is awaited inside the reconnect-aware send loop: a call whose ack is lost together with the transport is
+	// sent again after the recovery (like every other request) instead of waiting for an ack that can no longer come
+	var ack *message.UpstreamCallAck
 	err := c.send(ctx, func(ctx context.Context) error {
 		c.wireConnMu.Lock()
-		defer c.wireConnMu.Unlock()
-		return c.wireConn.SendUpstreamCall(ctx, msg)
+		wireConn := c.wireConn
+		c.wireConnMu.Unlock()
+		if err := wireConn.SendUpstreamCall(ctx, msg); err != nil {
+			return err
+		}
+		select {
+		case <-ctx.Done():
+			return ctx.Err()
+		case <-wireConn.Closed():
+			return errors.ErrConnectionClosed
+		case ack = <-ch:
+			return nil
+		}
 	})
 	if err != nil {
-		return nil, err
-	}
-	select {
-	case <-ctx.Done():
-		if c.state.Is(connStatusClosed) {
+		if ctx.Err() != nil && c.state.Is(connStatusClosed) {
 			return nil, errors.ErrConnectionClosed
 		}
-		return nil, ctx.Err()
-	case ack := <-ch:
-		return ack, nil
+		return nil, err
 	}
+	return ack, nil
 }
